@@ -455,6 +455,12 @@ def _duration_cast(em, node, recv, args):
     return e
 
 
+def _time_point_type(em, base, targs, name):
+    if base == "std::chrono::time_point":
+        return CT("long")
+    return None
+
+
 def chrono_boundary(cfg):
     cfg.type_handlers.append(_dur_type)
     for n in ("system_clock::duration", "steady_clock::duration", "nanoseconds", "microseconds", "milliseconds", "seconds", "minutes", "hours",
@@ -464,6 +470,12 @@ def chrono_boundary(cfg):
     cfg.ctor_ext["std::chrono::duration"] = lambda em, node, args: (em.expr(args[0]) if args else "0")
     cfg.ext_methods["std::chrono::duration::operator="] = lambda em, recv, args, n: "%s = %s" % (recv, em.expr(args[0]))
     cfg.ext_methods["std::chrono::duration::count"] = lambda em, recv, args, n: recv
+    for op in (">", "<", ">=", "<=", "==", "!="):
+        cfg.ext_methods["std::chrono::duration::operator" + op] = (lambda o: (lambda em, recv, args, n: "(%s %s %s)" % (recv, o, em.expr(args[0]))))(op)
+    cfg.type_handlers.append(_time_point_type)
+    cfg.type_map["std::chrono::system_clock::time_point"] = "long"
+    cfg.type_map["std::chrono::steady_clock::time_point"] = "long"
+    cfg.ext_methods["std::chrono::time_point::time_since_epoch"] = lambda em, recv, args, n: recv
 
 
 # ---------------------------------------------------------------------------------------------
@@ -661,3 +673,102 @@ def batch_boundary(cfg):
         cfg.ext_methods[base + "::operator unsigned long"] = lambda em, recv, args, n: recv
         cfg.ext_methods[base + "::operator __int_type"] = lambda em, recv, args, n: recv
         cfg.ext_methods[base + "::operator bool"] = lambda em, recv, args, n: recv
+
+
+# ---------------------------------------------------------------------------------------------
+# aggregation boundary (Sum / LastValue Merge, Diff, ToPoint): PointType as a tagged union over the four point structs,
+# unique_ptr<Aggregation> as a plain pointer, the virtual ToPoint() of the argument resolved to the class of `this`
+POINT_ALTS = ["SumPointData", "HistogramPointData", "LastValuePointData", "DropPointData"]
+POINT_UNION_C = r"""
+/* sdk::metrics::PointType = nostd::variant<SumPointData, HistogramPointData, LastValuePointData, DropPointData> */
+typedef struct xc_point { int tag; union { SumPointData a0; HistogramPointData a1; LastValuePointData a2; DropPointData a3; } u; } xc_point;
+static inline xc_point xc_point_from_SumPointData(SumPointData x) { xc_point p; p.tag = 0; p.u.a0 = x; return p; }
+static inline xc_point xc_point_from_HistogramPointData(HistogramPointData x) { xc_point p; p.tag = 1; p.u.a1 = x; return p; }
+static inline xc_point xc_point_from_LastValuePointData(LastValuePointData x) { xc_point p; p.tag = 2; p.u.a2 = x; return p; }
+static inline xc_point xc_point_from_DropPointData(DropPointData x) { xc_point p; p.tag = 3; p.u.a3 = x; return p; }
+static inline SumPointData xc_point_get_SumPointData(xc_point p) { if (p.tag != 0) XC_THROW(); return p.u.a0; }   /* bad_variant_access */
+static inline HistogramPointData xc_point_get_HistogramPointData(xc_point p) { if (p.tag != 1) XC_THROW(); return p.u.a1; }
+static inline LastValuePointData xc_point_get_LastValuePointData(xc_point p) { if (p.tag != 2) XC_THROW(); return p.u.a2; }
+static inline DropPointData xc_point_get_DropPointData(xc_point p) { if (p.tag != 3) XC_THROW(); return p.u.a3; }
+long xc_now(void);   /* std::chrono::system_clock::now(): any value */
+"""
+
+
+def _point_type(em, base, targs, name):
+    if base in ("nostd::variant", "variant", "absl::otel_v1::variant") and targs and \
+            [t.strip().split("::")[-1] for t in targs] == POINT_ALTS:
+        for a in POINT_ALTS:
+            rec = em.find_record("sdk::metrics::" + a) or em.find_record(a)
+            if rec is None:
+                raise ExtractionError("PointType alternative %s not found" % a)
+            em.need_struct(rec)
+        return CT("xc_point")
+    return None
+
+
+def _aggr_ptr_type(em, base, targs, name):
+    if base == "std::unique_ptr" and targs and targs[0].strip().split("::")[-1] == "Aggregation":
+        inner = em._ctype(targs[0])
+        return CT(inner.base, inner.ptr + 1)
+    return None
+
+
+def _point_get(em, node, recv, args):
+    at = em.ctype(args[0]["type"])
+    if at.is_ref:
+        at = at.pointee()
+    if at.base != "xc_point":
+        return _vget(em, node, recv, args)
+    t = em.ctype(node["type"])
+    if t.is_ref:
+        t = t.pointee()
+    if t.base not in POINT_ALTS:
+        raise ExtractionError("nostd::get<%s> on a PointType" % t.base)
+    em.report["nostd::get<T>(PointType) -> tag test (bad_variant_access = termination) + member of the union"] += 1
+    return "xc_point_get_%s(%s)" % (t.base, em.expr(args[0]))
+
+
+def _point_ctor(em, node, args):
+    t = em.ctype(node["type"])
+    if t.base != "xc_point":
+        return _variant_ctor(em, node, args)
+    real = [a for a in args if a.get("kind") != "CXXDefaultArgExpr"]
+    at = em.ctype(real[0]["type"])
+    if at.is_ref:
+        at = at.pointee()
+    if at.base == "xc_point":
+        return em.expr(real[0])
+    if at.base not in POINT_ALTS:
+        raise ExtractionError("PointType construction from %s" % at.base)
+    return "xc_point_from_%s(%s)" % (at.base, em.expr(real[0]))
+
+
+def _virtual_topoint(em, node, recv, args):
+    """x.ToPoint() through a `const Aggregation &`: resolved to ToPoint of the class whose member is being extracted (the storages only
+    ever merge aggregations of one kind; recorded as an assumption)"""
+    rec = em.ix.record_of_method(em.cur["decl"])
+    q = em.ix.qual.get(rec["id"], "")
+    qn, d = em.ix.find_function(q + "::ToPoint", 0)
+    cname = em.need_function(d)
+    em.report["virtual Aggregation::ToPoint() of the argument resolved to the class of `this` (same-kind assumption)"] += 1
+    r = recv["node"] if isinstance(recv, dict) and "node" in recv else recv
+    rt = em.ctype(r["type"])
+    e = em.expr(r)
+    ptr = e if (rt.ptr or rt.is_ref) and not isinstance(recv, dict) else "&(%s)" % e
+    if isinstance(recv, dict) and recv.get("xc_is_ptr"):
+        ptr = e
+    return "%s((const %s *)(%s))" % (cname, em.record_cname(rec), ptr)
+
+
+def aggregation_boundary(cfg):
+    cfg.type_handlers.insert(0, _point_type)
+    cfg.type_handlers.insert(0, _aggr_ptr_type)
+    cfg.ext_q["nostd::get"] = _point_get
+    cfg.ext["get"] = _point_get
+    cfg.ctor_ext["absl::otel_v1::variant"] = _point_ctor
+    cfg.ctor_ext["std::unique_ptr"] = lambda em, node, args: (em.expr(args[0]) if args else "NULL")
+    cfg.ext_methods["std::unique_ptr::get"] = lambda em, recv, args, n: recv
+    cfg.ext["new"] = _kv_new
+    cfg.ext_q["Aggregation::ToPoint"] = _virtual_topoint
+    cfg.ext_q["system_clock::now"] = lambda em, node, recv, args: "xc_now()"
+    cfg.ext["now"] = lambda em, node, recv, args: "xc_now()"
